@@ -361,6 +361,7 @@ class Judge:
         zone = None
         if not chain['pmode'] and V.EXT.get(it.kind) is None and self.dotted_namemode:
             zone = 'dotted_config_name_directory_side_files'
+            rprop = 'C18'      # the collision is the same in release 1.4.0: not a change of the storage scheme
         if kind == 'log':
             if not lr.get('log_valid', True):
                 return
